@@ -359,8 +359,8 @@ class ProgGen:
 
     def e_eq(self, ty, d, pure):
         t = self.small_ty(1) if self.rng.random() < 0.5 else self.int_ty()
-        if "core" in self.features and t["k"] not in ("bool", "int"):
-            t = self.int_ty()           # `==` on aggregates is outside Model/BitSem.lean
+        if "core" in self.features and "agg" not in self.features and t["k"] not in ("bool", "int"):
+            t = self.int_ty()
         op = self.rng.choice(["==", "!="])
         a, b = self.expr(t, d - 1, pure), self.expr(t, d - 1, pure)
         if self.rng.random() < 0.3:
